@@ -841,6 +841,13 @@ pub mod locks {
     }
     impl<T: ?Sized> Drop for MutexGuard<'_, T> {
         fn drop(&mut self) {
+            // Releasing is a scheduling point *before* it takes effect: other tasks get to run
+            // while the lock is still held, so a `try_lock` can find it busy and a `lock` can
+            // block — otherwise a critical section without a scheduling point inside would never
+            // be observed held (seeded change C16-r6-1 loses a result exactly then).
+            if self.sim.is_some() {
+                crate::yield_if_sim("unlock-pending");
+            }
             // real guard first (it is uncontended), then the simulated one
             self.real = None;
             if let Some((sh, id)) = self.sim.take() {
@@ -930,6 +937,9 @@ pub mod locks {
     }
     impl<T: ?Sized> Drop for RwLockReadGuard<'_, T> {
         fn drop(&mut self) {
+            if self.sim.is_some() {
+                crate::yield_if_sim("unlock-pending");
+            }
             self.real = None;
             if let Some((sh, id)) = self.sim.take() {
                 sim_unlock(&sh, id, true);
@@ -938,6 +948,9 @@ pub mod locks {
     }
     impl<T: ?Sized> Drop for RwLockWriteGuard<'_, T> {
         fn drop(&mut self) {
+            if self.sim.is_some() {
+                crate::yield_if_sim("unlock-pending");
+            }
             self.real = None;
             if let Some((sh, id)) = self.sim.take() {
                 sim_unlock(&sh, id, false);
